@@ -436,83 +436,86 @@ func ruleSIBviews(w *World, r *Report) {
 		r.Cond(stampTS[v.name], "SIB-views", fmt.Sprintf("RemoveEdge:soft:stamps-timestamp#%d", i+1), pos, "DeletedAt = the caller's timestamp", "soft delete ("+v.name+" view) does not store the caller's timestamp parameter into DeletedAt (history must carry the journaled time)")
 	}
 	// --- AddEdge: the look-up loops leave early exactly on the active version of the peer
-	afn := w.SSAFunc(ad.Obj)
+	atop := w.SSAFunc(ad.Obj)
 	lookSig := map[string]string{}
 	for _, v := range views {
 		var sigs []string
-		seenH := map[*ssa.BasicBlock]bool{}
-		for _, b := range afn.Blocks {
-			h := loopHeader(b)
-			if h == nil || seenH[h] {
-				continue
-			}
-			seenH[h] = true
-			body := loopBlocks(afn, h)
-			// the loop must read this view's records
-			reads := false
-			for lb := range body {
-				for _, in := range lb.Instrs {
-					if ia, ok := in.(*ssa.IndexAddr); ok && sliceElemName(ia.X.Type()) == v.elem {
-						reads = true
+		// (each half of AddEdge may be a function of its own, called by AddEdge alone)
+		for _, afn := range append([]*ssa.Function{atop}, w.extractedHelpers(atop)...) {
+			seenH := map[*ssa.BasicBlock]bool{}
+			for _, b := range afn.Blocks {
+				h := loopHeader(b)
+				if h == nil || seenH[h] {
+					continue
+				}
+				seenH[h] = true
+				body := loopBlocks(afn, h)
+				// the loop must read this view's records
+				reads := false
+				for lb := range body {
+					for _, in := range lb.Instrs {
+						if ia, ok := in.(*ssa.IndexAddr); ok && sliceElemName(ia.X.Type()) == v.elem {
+							reads = true
+						}
 					}
 				}
-			}
-			if !reads {
-				continue
-			}
-			// early exit: a block outside the loop entered from a body block other than the header
-			exitEdges := map[edgeKey]bool{}
-			for si, s := range h.Succs {
-				if !body[s] {
-					exitEdges[edgeKey{h, si}] = true
-				}
-			}
-			var entry *ssa.BasicBlock
-			for _, s := range h.Succs {
-				if body[s] {
-					entry = s
-				}
-			}
-			if entry == nil {
-				continue
-			}
-			tbl, _ := truthTable(afn, body, func(assume map[ssa.Value]bool) bool {
-				found, _ := pathQuery{fn: afn, target: func(in ssa.Instruction) bool { return !body[in.Block()] }, blocked: exitEdges, assume: assume}.find(ipos{entry, -1})
-				return found
-			})
-			sigs = append(sigs, tbl)
-		}
-		// the same look-up written as slices.IndexFunc / slices.ContainsFunc over this view's records: the predicate is
-		// the closure, "stops on" is "the closure answers true"
-		for _, b := range afn.Blocks {
-			for _, in := range b.Instrs {
-				c, ok := in.(*ssa.Call)
-				if !ok || len(c.Call.Args) != 2 || sliceElemName(c.Call.Args[0].Type()) != v.elem {
+				if !reads {
 					continue
 				}
-				callee := c.Call.StaticCallee()
-				if callee == nil || callee.Pkg == nil && callee.Origin() == nil {
+				// early exit: a block outside the loop entered from a body block other than the header
+				exitEdges := map[edgeKey]bool{}
+				for si, s := range h.Succs {
+					if !body[s] {
+						exitEdges[edgeKey{h, si}] = true
+					}
+				}
+				var entry *ssa.BasicBlock
+				for _, s := range h.Succs {
+					if body[s] {
+						entry = s
+					}
+				}
+				if entry == nil {
 					continue
 				}
-				o := callee
-				if callee.Origin() != nil {
-					o = callee.Origin()
+				tbl, _ := truthTable(afn, body, func(assume map[ssa.Value]bool) bool {
+					found, _ := pathQuery{fn: afn, target: func(in ssa.Instruction) bool { return !body[in.Block()] }, blocked: exitEdges, assume: assume}.find(ipos{entry, -1})
+					return found
+				})
+				sigs = append(sigs, tbl)
+			}
+			// the same look-up written as slices.IndexFunc / slices.ContainsFunc over this view's records: the predicate is
+			// the closure, "stops on" is "the closure answers true"
+			for _, b := range afn.Blocks {
+				for _, in := range b.Instrs {
+					c, ok := in.(*ssa.Call)
+					if !ok || len(c.Call.Args) != 2 || sliceElemName(c.Call.Args[0].Type()) != v.elem {
+						continue
+					}
+					callee := c.Call.StaticCallee()
+					if callee == nil || callee.Pkg == nil && callee.Origin() == nil {
+						continue
+					}
+					o := callee
+					if callee.Origin() != nil {
+						o = callee.Origin()
+					}
+					if o.Pkg == nil || o.Pkg.Pkg.Path() != "slices" || (o.Name() != "IndexFunc" && o.Name() != "ContainsFunc") {
+						continue
+					}
+					var pred *ssa.Function
+					switch f := c.Call.Args[1].(type) {
+					case *ssa.MakeClosure:
+						pred, _ = f.Fn.(*ssa.Function)
+					case *ssa.Function:
+						pred = f
+					}
+					if pred == nil || len(pred.Blocks) == 0 {
+						sigs = append(sigs, "predicate-not-a-function-literal")
+						continue
+					}
+					sigs = append(sigs, closureTable(pred))
 				}
-				if o.Pkg == nil || o.Pkg.Pkg.Path() != "slices" || (o.Name() != "IndexFunc" && o.Name() != "ContainsFunc") {
-					continue
-				}
-				var pred *ssa.Function
-				switch f := c.Call.Args[1].(type) {
-				case *ssa.MakeClosure:
-					pred, _ = f.Fn.(*ssa.Function)
-				case *ssa.Function:
-					pred = f
-				}
-				if pred == nil || len(pred.Blocks) == 0 {
-					sigs = append(sigs, "predicate-not-a-function-literal")
-					continue
-				}
-				sigs = append(sigs, closureTable(pred))
 			}
 		}
 		sort.Strings(sigs)
